@@ -8,7 +8,7 @@ use clvm_rs::allocator;
 use clvm_rs::allocator::{Allocator, NodePtr};
 
 use clvm_rs::error::EvalErr;
-use num_bigint::ToBigInt;
+use num_bigint::{Sign, ToBigInt};
 
 use sha2::Digest;
 use sha2::Sha256;
@@ -138,7 +138,10 @@ fn choose_path(
     all: Rc<SExp>,
     context: Rc<SExp>,
 ) -> Result<Rc<SExp>, RunFailure> {
-    if p == bi_one() {
+    if p == bi_zero() {
+        // As in the consensus evaluator, an all-zero path yields nil.
+        Ok(Rc::new(SExp::Nil(l)))
+    } else if p == bi_one() {
         Ok(context)
     } else {
         match context.borrow() {
@@ -490,6 +493,13 @@ pub fn combine(a: &RunStep, b: &RunStep) -> RunStep {
     }
 }
 
+/// An atom evaluated as a program is an environment path: the consensus
+/// evaluator reads it as an unsigned big-endian number, so redundant sign
+/// bytes are significant (0xffff is path 65535, not -1).
+fn path_from_u8(v: &[u8]) -> Number {
+    Number::from_bytes_be(Sign::Plus, v)
+}
+
 pub fn flatten_signed_int(v: Number) -> Number {
     let mut sign_digits = v.to_signed_bytes_le();
     sign_digits.push(0);
@@ -540,14 +550,14 @@ pub fn run_step(
                 }
                 SExp::QuotedString(l, _, v) => {
                     step = RunStep::Step(
-                        Rc::new(SExp::Integer(l.clone(), number_from_u8(v))),
+                        Rc::new(SExp::Integer(l.clone(), path_from_u8(v))),
                         context.clone(),
                         parent.clone(),
                     );
                 }
                 SExp::Atom(l, v) => {
                     step = RunStep::Step(
-                        Rc::new(SExp::Integer(l.clone(), number_from_u8(v))),
+                        Rc::new(SExp::Integer(l.clone(), path_from_u8(v))),
                         context.clone(),
                         parent.clone(),
                     );
